@@ -150,7 +150,7 @@ def gen_message(rng: random.Random, kind: int | None = None, in_domain: bool = T
         return rng.choice([0, n - 1, rng.randrange(n)]) if not wild else rng.choice([n, 255, 256, 300, rng.randrange(n)])
 
     def count(hi=16):
-        return rng.choice([1, 1, 2, 5, hi])
+        return rng.choice([0, 1, 1, 2, 5, hi])
 
     if k == 0:
         out = []
@@ -186,7 +186,7 @@ def gen_message(rng: random.Random, kind: int | None = None, in_domain: bool = T
             rng.choice(list(acs.AcFanSpeed)), rng.random() < 0.5, rng.random() < 0.5, rng.random() < 0.5,
             rng.random() < 0.5, rand_sp(rng, wild), rand_temp(rng),
             rng.choice([0, 1, 0xFFFE, 0xFFFF, rng.randrange(65536)]) if not wild else 70000)
-            for _ in range(rng.choice([1, 1, 2, 4, 8]))]))
+            for _ in range(rng.choice([0, 1, 1, 2, 4, 8]))]))
     if k == 5:
         return c0.ControlStatusMessage(acs.AcStatusRequest())
     if k in (6, 7):
@@ -195,7 +195,7 @@ def gen_message(rng: random.Random, kind: int | None = None, in_domain: bool = T
             tst.AcTimerStatusData(small(16 if rng.random() < 0.5 else 4),
                                   tst.AcTimerState(rng.random() < 0.5, small(24), small(60)),
                                   tst.AcTimerState(rng.random() < 0.5, small(24), small(60)))
-            for _ in range(rng.choice([1, 1, 2, 4, 8]))]))
+            for _ in range(rng.choice([0, 1, 1, 2, 4, 8]))]))
     if k == 8:
         return c0.ControlStatusMessage(tst.AcTimerStatusRequest())
     if k == 9:
